@@ -204,6 +204,21 @@ func genC15(t *rapid.T) *FileCase {
 			c.File.Tops = append(c.File.Tops, &Top{K: "script", Script: &Script{Name: fmt.Sprintf("Lobby%d_%d", i, rapid.IntRange(1, 9).Draw(t, "shapedn")), Scope: scope, Body: &Block{Stmts: []*Stmt{sCmd(&Cmd{Name: "shaped"})}}}})
 		}
 	}
+	// a text whose body is a poryswitch keeps its modifier (or the default) like any other text
+	nps := rapid.IntRange(0, 2).Draw(t, "pstexts")
+	for i := 0; i < nps; i++ {
+		scope := rapid.SampledFrom([]string{"", "global", "local", "local"}).Draw(t, "pstextscope")
+		ps := &PSText{Var: "V", Cases: []*PSTextCase{
+			{Key: rapid.SampledFrom([]string{"A", "B"}).Draw(t, "pstextkey"), Brace: rapid.Bool().Draw(t, "pstextbrace"), Val: &TextVal{Lit: &StrLit{Parts: []string{"chosen"}}}},
+			{Key: "_", Val: &TextVal{Lit: &StrLit{Parts: []string{"fallback"}}}},
+		}}
+		if c.Switches == nil {
+			c.Switches = map[string]string{"V": rapid.SampledFrom([]string{"A", "B", "zz"}).Draw(t, "pstextV"), "W": "A"}
+		}
+		tp := &Top{K: "text", Text: &TextStmt{Name: fmt.Sprintf("SwitchedText%d", i), Scope: scope, PS: ps}}
+		at := rapid.IntRange(0, len(c.File.Tops)).Draw(t, "pstextat")
+		c.File.Tops = append(c.File.Tops[:at:at], append([]*Top{tp}, c.File.Tops[at:]...)...)
+	}
 	return c
 }
 
@@ -213,7 +228,7 @@ func TestC15_Regress(t *testing.T) { runRegress(t, "C15") }
 
 func TestC15_Scopes(t *testing.T) {
 	st := stat("C15")
-	st.SetRule("whole files of up to 7 top-level statements of every kind, each with no modifier, (global) or (local); labels inside scripts with and without modifiers; programs that make the compiler invent sub-labels, hoisted text/movement labels, inline map scripts and tables; every label definition of the output (optimize off and on) is classified by the model and its '::' / ':' must match the modifier, the documented default (script/text/mapscripts global, movement/mart/in-script labels local) or 'invented => local'. non-trivial = >= 3 statement kinds, >= 1 non-default modifier and >= 2 kinds of invented labels; distinct by source text")
+	st.SetRule("whole files of up to 7 top-level statements of every kind, each with no modifier, (global) or (local), texts also with a poryswitch body; labels inside scripts with and without modifiers; programs that make the compiler invent sub-labels, hoisted text/movement labels, inline map scripts and tables; every label definition of the output (optimize off and on) is classified by the model and its '::' / ':' must match the modifier, the documented default (script/text/mapscripts global, movement/mart/in-script labels local) or 'invented => local'. non-trivial = >= 3 statement kinds, >= 1 non-default modifier and >= 2 kinds of invented labels; distinct by source text")
 	runRapid(t, "C15", "TestC15_Scopes", genC15, checkC15, fileCaseSrc)
 }
 
